@@ -59,9 +59,9 @@ Record Specs2 (f : nat) : Prop := {
       safe (run_script cf f sc) s (tpost RC RF);
   tp_api : forall c s RC RF, Inv s -> nohost_call c -> TokInv s RC (call_toks c ++ RF) -> safe (api cf f c) s (tpost RC RF);
   tp_query_nolock : forall k s RC RF, Inv s -> Own s (cobjs k) -> nohost k -> TokInv s (ctoks k ++ RC) RF ->
-      safe (query_nolock cf f k) s (tpost RC RF);
+      safe (query_nolock cf f k None) s (tpost RC RF);
   tp_send_nolock : forall k pr s RC RF, Inv s -> Own s (cobjs k) -> nohost k -> TokInv s (ctoks k ++ RC) RF ->
-      safe (send_nolock cf f k pr) s (tpost RC RF);
+      safe (send_nolock cf f k pr None) s (tpost RC RF);
   tp_send_query : forall qo s RC RF, Inv s -> In qo (linked s) -> TokInv s RC RF -> safe (send_query cf f qo) s (tpost RC RF);
   tp_send_query_write : forall qo op s RC RF, Inv s -> In qo (linked s) -> TokInv s RC RF ->
       safe (send_query_write cf f qo op) s (tpost RC RF);
@@ -409,7 +409,7 @@ Proof.
                   if zeqb wrc ARES_SUCCESS
                   then attach_frag qo co tcp;;
                        (let! s0 := get in
-                        (if probe_ahead (st_tape s0) then let! _ := send_nolock cf f KProbe true in ret tt else ret tt));;
+                        (if probe_ahead (st_tape s0) then let! _ := send_nolock cf f KProbe true None in ret tt else ret tt));;
                        ret ARES_SUCCESS
                   else if zeqb wrc ARES_ENOMEM
                   then end_query cf f qo wrc (res wrc);; ret wrc
@@ -429,7 +429,7 @@ Proof.
               safe (if zeqb wrc ARES_SUCCESS
                     then attach_frag qo co tcp;;
                          (let! s0 := get in
-                          (if probe_ahead (st_tape s0) then let! _ := send_nolock cf f KProbe true in ret tt else ret tt));;
+                          (if probe_ahead (st_tape s0) then let! _ := send_nolock cf f KProbe true None in ret tt else ret tt));;
                          ret ARES_SUCCESS
                     else if zeqb wrc ARES_ENOMEM
                     then end_query cf f qo wrc (res wrc);; ret wrc
@@ -537,22 +537,22 @@ Proof.
 Qed.
 
 Lemma send_nolock_tstep f : Specs2 f -> forall k pr s RC RF, Inv s -> Own s (cobjs k) -> nohost k -> TokInv s (ctoks k ++ RC) RF ->
-  safe (send_nolock cf (S f) k pr) s (tpost RC RF).
+  safe (send_nolock cf (S f) k pr None) s (tpost RC RF).
 Proof.
-  intros IH k pr s RC RF I O Hn T. rewrite send_nolock_unfold.
+  intros IH k pr s RC RF I O Hn T. rewrite send_nolock_unfold. rewrite (fx_qidearly_true cf Hfix). simpl negb. cbn [andb write_qid].
   apply safe_bind. apply gen_qid_ok'. intros qid l1 Lk1.
   set (s1 := set_tape l1 s).
   assert (E1 : core_eq s s1) by apply core_eq_set_tape.
   assert (G : forall cached l2,
             safe (match cached with
-                  | Some r => invoke cf f k r;; ret (r_status r, None)
+                  | Some r => invoke cf f k r;; ret (r_status r)
                   | None =>
                       let! e := pop in
                       match e with
                       | TD rc =>
                           if negb (zeqb rc ARES_SUCCESS)
                           then let st := if zeqb rc ARES_EBADRESP then ARES_EBADQUERY else rc in
-                               invoke cf f k (res st);; ret (st, None)
+                               invoke cf f k (res st);; ret st
                           else (if cf_dns0x20 cf
                                 then let! e0 := peek in
                                      match e0 with Some (TN _) => let! _ := pop in ret tt | _ => ret tt end
@@ -561,7 +561,8 @@ Proof.
                                                            q_noretry := pr; q_tcp := false; q_err := ARES_SUCCESS |}) in
                                 link_all qo;;
                                 modify (fun s0 => set_byqid ((qid, qo) :: st_byqid s0) s0);;
-                                (let! st := send_query cf f qo in ret (st, if zeqb st ARES_SUCCESS then Some qid else None)))
+                                ret tt;;
+                                (let! st := send_query cf f qo in ret tt;; ret st))
                       | _ => fail EDESYNC end
                   end) (set_tape l2 s) (tpost RC RF)).
   { intros cached l2. set (s2 := set_tape l2 s).
@@ -586,7 +587,8 @@ Proof.
                                                     q_noretry := pr; q_tcp := false; q_err := ARES_SUCCESS |}) in
                         link_all qo;;
                         modify (fun s0 => set_byqid ((qid, qo) :: st_byqid s0) s0);;
-                        (let! st := send_query cf f qo in ret (st, if zeqb st ARES_SUCCESS then Some qid else None)))
+                        ret tt;;
+                        (let! st := send_query cf f qo in ret tt;; ret st))
                        (set_tape l4 s) (tpost RC RF)).
         { intros l4. set (s4 := set_tape l4 s).
           assert (E4 : core_eq s s4) by apply core_eq_set_tape.
@@ -599,8 +601,9 @@ Proof.
           apply safe_bind. apply safe_alloc.
           apply safe_bind. eapply safe_of_run; [apply link_all_run|].
           apply safe_bind. apply safe_modify.
+          apply safe_bind. apply safe_ret.
           apply safe_bind. eapply safe_mono; [apply (tp_send_query _ IH _ _ RC RF I5 Hl5 T5)|].
-          intros z s6 T6. apply safe_ret. exact T6. }
+          intros z s6 T6. apply safe_bind. apply safe_ret. apply safe_ret. exact T6. }
         apply safe_bind.
         * destruct (cf_dns0x20 cf); [|apply safe_ret; apply (D rest)].
           apply safe_bind. apply safe_peek.
@@ -619,7 +622,7 @@ Lemma own_alloc_tok s k RC RF : Inv s -> TokInv s (ctoks k ++ RC) RF -> TokInv (
 Proof. intros I T. apply (tok_alloc None); auto. Qed.
 
 Lemma query_nolock_tstep f : Specs2 f -> forall k s RC RF, Inv s -> Own s (cobjs k) -> nohost k -> TokInv s (ctoks k ++ RC) RF ->
-  safe (query_nolock cf (S f) k) s (tpost RC RF).
+  safe (query_nolock cf (S f) k None) s (tpost RC RF).
 Proof.
   intros IH k s RC RF I O Hn T. simpl.
   apply safe_bind. apply safe_alloc.
@@ -649,7 +652,7 @@ Proof.
     + apply safe_ret. simpl. split; [exact T1|]. apply negb_true_iff in Erc. exact Erc.
     + apply safe_bind.
       eapply safe_mono; [apply (tp_send_nolock _ IH (KSearch o k cur l' nd) false s1 RC RF I1 O1 Hn T1)|].
-      intros [st w] s2 T2. apply safe_ret. rewrite (fx_search_true cf Hfix). simpl. exact T2.
+      intros st s2 T2. apply safe_ret. rewrite (fx_search_true cf Hfix). simpl. exact T2.
 Qed.
 
 Lemma search_callback_tstep f : Specs2 f -> forall o k cs l nd r s RC RF, Inv s -> Own s (o :: cobjs k) -> nohost k ->
